@@ -30,11 +30,14 @@ type c07Case struct {
 	Sib      model.HexBytes `json:"sib,omitempty"`       // one encoded leaf item that every level of the chain holds beside its nested list
 	SibPos   int            `json:"sib_pos,omitempty"`   // 0 before the nested list, 1 after it, 2 both
 	SibItems int            `json:"sib_items,omitempty"` // number of items that Sib encodes (0 = one)
-	RepKind  string         `json:"rep_kind,omitempty"` // an item of this kind whose payload is RepUnit repeated RepN times (refused values en masse)
+	RepKind  string         `json:"rep_kind,omitempty"`  // an item of this kind whose payload is RepUnit repeated RepN times (refused values en masse)
 	RepUnit  model.HexBytes `json:"rep_unit,omitempty"`
 	RepN     int            `json:"rep_n,omitempty"`
-	Truncate int            `json:"truncate,omitempty"`
-	Patch    bool           `json:"patch,omitempty"` // rewrite the outer length to match
+	// RefusedHeader: the header (not the text) is one the message constructor refuses - W-bit on an even function -
+	// so that the refusal comes after the whole text has been decoded; it must cost no more than accepting would
+	RefusedHeader bool `json:"refused_header,omitempty"`
+	Truncate      int  `json:"truncate,omitempty"`
+	Patch         bool `json:"patch,omitempty"` // rewrite the outer length to match
 	// History: inputs decoded by the same worker process right before this one (the decoder must not carry
 	// anything from one call to the next)
 	History []model.HexBytes `json:"history,omitempty"`
@@ -89,6 +92,10 @@ func (c c07Case) input() ([]byte, error) {
 		in = patchLen(in)
 	default:
 		in = append([]byte(nil), c.Bytes...)
+	}
+	if c.RefusedHeader && len(in) >= 14 && in[8] == 0 && in[9] == 0 {
+		in[6] |= 0x80
+		in[7] &^= 1
 	}
 	if c.Truncate > 0 && c.Truncate < len(in) {
 		in = in[:len(in)-c.Truncate]
@@ -223,6 +230,15 @@ func wrapInLists(core []byte, depth int) []byte {
 }
 
 func genC07(t *rapid.T) c07Case {
+	c := genC07Shape(t)
+	if (c.Depth > 0 || c.Item != nil || c.RepN > 0) && rapid.IntRange(0, 4).Draw(t, "refusedHeader") == 4 {
+		c.RefusedHeader = true
+		c.Gen += "+refused-header"
+	}
+	return c
+}
+
+func genC07Shape(t *rapid.T) c07Case {
 	switch rapid.IntRange(0, 13).Draw(t, "class") {
 	case 13:
 		// one item full of values that its constructor refuses (NaN, infinities, non-ASCII bytes): refused, at linear cost
